@@ -66,6 +66,14 @@ def families(tier):
     out += list(two_level_circuits(limit=24 if tier == "quick" else 200))
     from ..corpus import corpus
 
+    # nodes whose sets of achievable "number of sensitive startpoints" have gaps (0 and 5 but not 2; 0 and 2 but not 1) and
+    # whose maximum is below the startpoint count - a search that assumes monotonicity in the count goes wrong on them
+    from ..refmodel import build as _build
+
+    I_ = ("input", [])
+    out.append(("gap::parity4-gated", _build({"a": I_, "b": I_, "c": I_, "d": I_, "e": I_, "g": I_, "p": ("xor", ["a", "b", "c", "d"]), "q": ("or", ["e", "g"]), "o": ("and", ["p", "q"])}, outputs=["o"])))
+    out.append(("gap::parity-or-constant-false", _build({"a": I_, "b": I_, "c": I_, "p": ("xor", ["a", "b"]), "nc": ("not", ["c"]), "z": ("and", ["c", "nc"]), "o": ("or", ["p", "z"])}, outputs=["o"])))
+    out.append(("gap::parity3-and-parity2", _build({"a": I_, "b": I_, "c": I_, "d": I_, "e": I_, "p": ("xnor", ["a", "b", "c"]), "q": ("xor", ["d", "e"]), "o": ("nor", ["p", "q"])}, outputs=["o", "p"])))
     keep = ("feedthrough-and-gate", "controlling-constants", "net-and-its-buffer", "reconvergence-through-inverters", "many-outputs-sharing-logic") if tier == "quick" else None
     out += [(f"corpus::{k}", c) for k, tags, c in corpus(tier, exclude=("x", "names", "wide")) if keep is None or k in keep]
     return out
@@ -83,11 +91,22 @@ def run(chk):
     fz = repo.func(FILE, "sensitization_transform")
     ft = repo.func(FILE, "sensitivity_transform")
     n_eval = 0
+    n_touched = 0
     for kname, c in families(chk.tier):
+        snap0 = c._snapshot()
         try:
             n_eval += per_circuit(chk, P, kname, c, fz, ft)
         except (EvalFail, KeyError) as e:
             chk.ob("C11.E.result-evaluable", f"{kname}", False, file=FILE, func="sensitization_transform/sensitivity_transform", fact={"problem": f"a transform result cannot be evaluated: {e}"})
+        # the analysed circuit itself is only read: output marks, types and wiring are what they were (a later analysis of the
+        # same object would otherwise see another circuit)
+        if c._snapshot() != snap0:
+            n_touched += 1
+            after = c._snapshot()
+            chk.ob("C11.A.argument-untouched", f"{kname}", False, file=FILE, func="sensitization_transform / sensitivity_transform / props.*",
+                   fact={"problem": "the circuit under analysis was modified by the analyses", "before": str(snap0)[:160], "after": str(after)[:160]}, expect="the argument circuit is left as it was")
+    chk.ob("C11.A.argument-untouched", "all analysed circuits", n_touched == 0, file=FILE, func="sensitization_transform / sensitivity_transform / props.*", fact={"circuits_modified": n_touched},
+           expect="no analysis modifies the circuit it is given")
     from ..stale import circuit_snapshot, stale_state_rule
     from ..minieval import ModelRaise as _MR
 
